@@ -199,6 +199,29 @@ pub fn run(ctx: &mut Ctx, model: &mut Model) {
                 let ok = if reader_refuses { got.is_err() } else { got.as_ref().ok() == Some(&raw) };
                 ctx.oracle("seckey_cfb_rfc_blob_unlocks", "EncryptedSecretParams::unlock (Cfb)", &args, ok, &format!("{:?}", got.as_ref().map(|v| v.len())));
             }
+            // usage 255 (two-octet checksum, encrypted together with the key fields, RFC 9580 5.5.3) and
+            // the legacy cipher octet (key = MD5 of the password): blobs built from the RFC text unlock
+            // (v4 keys; oracle only)
+            if ver == 4 && !matches!(spec, rfc::S2k::Argon2 { .. }) {
+                let sum: u16 = raw.iter().fold(0u16, |a, &b| a.wrapping_add(b as u16));
+                let plain = [&raw[..], &sum.to_be_bytes()[..]].concat();
+                if let Some(k) = rfc::s2k(&spec, &pw, rfc::key_size(sym)) {
+                    if let Ok(w) = crate::plan::cfb_encrypt(sym, &k, &iv, &plain) {
+                        let p255 = S2kParams::MalleableCfb { sym_alg: SymmetricKeyAlgorithm::from(sym), s2k: to_rpgp(&spec), iv: iv.clone().into() };
+                        let got = key.unlock_with(&pw, p255, &w);
+                        ctx.oracle("seckey_cfb_rfc_blob_unlocks", "EncryptedSecretParams::unlock (MalleableCfb, usage 255)", &args, got.as_ref().ok() == Some(&raw), &format!("{:?}", got.as_ref().map(|v| v.len())));
+                    }
+                }
+                if rfc::key_size(sym) == 16 {
+                    use md5::Digest;
+                    let k = md5::Md5::digest(&pw).to_vec();
+                    if let Ok(w) = crate::plan::cfb_encrypt(sym, &k, &iv, &plain) {
+                        let pl = S2kParams::LegacyCfb { sym_alg: SymmetricKeyAlgorithm::from(sym), iv: iv.clone().into() };
+                        let got = key.unlock_with(&pw, pl, &w);
+                        ctx.oracle("seckey_cfb_rfc_blob_unlocks", "EncryptedSecretParams::unlock (LegacyCfb, usage = cipher octet)", &args, got.as_ref().ok() == Some(&raw), &format!("{:?}", got.as_ref().map(|v| v.len())));
+                    }
+                }
+            }
             jobs.push(job(format!("seckey.cfb enc=1 {args}"), move |ctx, req, ans, _| {
                 ctx.case(req.to_string(), plan_answer(ans, &real.clone().map(|b| vec![b])).0);
             }));
